@@ -33,7 +33,7 @@ func pidAlive(pid int) bool {
 
 func runC11(res *Result, d *Driver, tier string, seed uint64) {
 	res.Rule = "cancellation instants swept over the whole life of a run (already cancelled before Run, 0..T in small steps, while the program exits) for sleeping, CPU-burning, forking and immediately-exiting programs in the ptrace runner, the namespace runner and the container (with the host/container delay points armed to pin the races); " +
-		"the run must return within the bound with the genuine final verdict (program already ended) or Time Limit Exceeded — never Runner Error or a policy violation, never a lost cancellation (program runs to completion long after cancel), also for programs that hold 8, 40 or 61 MiB under a 64 MiB limit when they are cancelled — and the program's pid must be dead; Destroy during an in-flight Execve/Open/Ping must make the call return with an error and kill the container init. " +
+		"the run must return within the bound with the genuine final verdict (program already ended) or Time Limit Exceeded — never Runner Error or a policy violation, never a lost cancellation (program runs to completion long after cancel), also for programs that hold 16, 150 or 246 MiB under a 256 MiB limit when they are cancelled — and the program's pid must be dead; Destroy during an in-flight Execve/Open/Ping must make the call return with an error and kill the container init. " +
 		"non-trivial = every case; distinct = (runner, program, instant)."
 	rng := NewRng(seed, "C11", 1)
 	const bound = 10 * time.Second // programs marked long run for 30 s: a lost cancellation is far beyond this, a loaded machine is not
@@ -48,10 +48,11 @@ func runC11(res *Result, d *Driver, tier string, seed uint64) {
 		{"forker", "fork;sleep 20000;endfork;fork;spin 20000;endfork;sleep 20000;exit 0", true, 0},
 		{"quick", "exit 3", false, 0},
 		{"short", "sleep 8;exit 0", false, 0},
-		// programs that are inside their limits when they are cancelled, at every distance from the memory limit (64 MiB)
-		{"holds-8MiB", "mem 8;print ready;sleep 20000;exit 0", true, 8},
-		{"holds-40MiB", "mem 40;print ready;sleep 20000;exit 0", true, 40},
-		{"holds-61MiB", "mem 61;print ready;sleep 20000;exit 0", true, 61},
+		// programs that are inside their limits when they are cancelled, at every distance from the memory limit (256 MiB;
+		// well above what the launching process itself holds: the kernel carries the peak resident set over an exec)
+		{"holds-16MiB", "mem 16;print ready;sleep 20000;exit 0", true, 16},
+		{"holds-150MiB", "mem 150;print ready;sleep 20000;exit 0", true, 150},
+		{"holds-246MiB", "mem 246;print ready;sleep 20000;exit 0", true, 246},
 	}
 	n := 25
 	if tier == "thorough" {
@@ -80,7 +81,7 @@ func runC11(res *Result, d *Driver, tier string, seed uint64) {
 				delay = time.Duration(rng.Intn(60)) * time.Millisecond
 			}
 			if p.memMB > 0 && rng.Chance(70) {
-				delay = time.Duration(150+10*p.memMB+rng.Intn(100)) * time.Millisecond // once the memory is resident
+				delay = time.Duration(200+3*p.memMB+rng.Intn(100)) * time.Millisecond // once the memory is resident
 			}
 			ctx, cancel := context.WithCancel(context.Background())
 			if delay < 0 {
@@ -91,7 +92,7 @@ func runC11(res *Result, d *Driver, tier string, seed uint64) {
 			var pid int
 			spec := RunSpec{Script: p.script, Ctx: ctx, Timeout: 30 * time.Second, SyncFunc: func(x int) error { pid = x; return nil }}
 			if p.memMB > 0 {
-				spec.Limit = runner.Limit{TimeLimit: 30 * time.Second, MemoryLimit: runner.Size(64 << 20)}
+				spec.Limit = runner.Limit{TimeLimit: 30 * time.Second, MemoryLimit: runner.Size(256 << 20)}
 			}
 			// many descriptors lengthen the window between clone and setsid in the child (pins the early-cancel race)
 			manyFiles := rn == "ptrace" && rng.Chance(40)
